@@ -191,6 +191,14 @@ def r31(facts, res):
     res.count('R3.1 rows', len(rows))
 
 
+def term_subst(t, old, new):
+    if t == old:
+        return new
+    if isinstance(t, tuple):
+        return tuple(term_subst(x, old, new) if isinstance(x, tuple) else x for x in t)
+    return t
+
+
 def order_constraint(c, v, cell_local):
     """A tested condition that orders the new production against the production decoded from the cell:
     returns (orderings of new-vs-cell it allows: subset of {-1, 0, 1}, new term, cell term), 'same-side' when both or neither operand
@@ -246,6 +254,34 @@ def r32(facts, res):
     if w.overflow:
         res.lost(R, 'path bound exceeded')
         return
+    # Conditions that the arms use may be computed BEFORE the cell is decoded (`let is_accept = ..; match decode(..) { X if is_accept`):
+    # walk one whole round of the loop around the token loop instead, and name the decoded cell as before
+    loops = b.loops()
+    inl = sorted((h for h in loops if bb in loops[h]), key=lambda h: len(loops[h]))
+    if len(inl) >= 2:
+        from lrstep import widening_walker, loop_assigned
+        h0 = inl[1]
+        w2 = widening_walker(b, facts, max_paths=6000)
+        w2.widen_headers = set(loops) - {h0}
+        w2.widen_assigned = {x: loop_assigned(b, x) for x in w2.widen_headers}
+        # leaving the loop towards the next round of the loop around it ends a round; early returns and panics are followed to their end
+        exits = {x for blk in loops[h0] for x in b.succs(blk) if x not in loops[h0]}
+        outs = {x for x in exits if len(inl) < 3 or inl[2] in b.reachable([x])}
+        ps2 = w2.run(h0, stop=lambda x: x in outs)
+        if not w2.overflow:
+            out = []
+            for p in ps2:
+                ev = [e for e in p.events if e[0] == 'call' and e[1] == bb]
+                if not ev:
+                    continue
+                cell, name = ev[0][5], ('uninit', t['dest']['l'])
+                p.conds = [(term_subst(c, cell, name), v) for c, v in p.conds]
+                p.events = [tuple(term_subst(x, cell, name) if isinstance(x, tuple) and i in (3, 5) else x for i, x in enumerate(e)) for e in p.events]
+                if p.end[0] == 'return':
+                    p.end = ('return', term_subst(p.end[1], cell, name))
+                out.append(p)
+            if out:
+                ps, w = out, w2
     act = facts.adt('lrtable::statetable::Action')
     vn = {v['discr']: v['name'] for v in act['variants']}
     # the cell vector: root local of the place passed to decode
